@@ -30,6 +30,12 @@ Theorem C07_census_covered : census_covered blocking_ops = true.
 Proof. exact census_is_covered. Qed.
 Print Assumptions C07_census_covered.
 
+(* ... and every channel such a listed answer is sent on was created with room for it (capacity >= 1 at every
+   creation site of a reply channel in the current sources; there are more than 20 of them) *)
+Theorem C07_reply_channels_have_room : replies_have_room chan_makes = true /\ 20 <= reply_count chan_makes.
+Proof. split; [vm_compute; reflexivity | vm_compute; repeat constructor]. Qed.
+Print Assumptions C07_reply_channels_have_room.
+
 Theorem C07_send_blocked_refuted_before_fix :
   exists s, texec tinit [TRegister; TCancel; TSpawnWaiter; TSenderDone; TFinish] = Some s /\ tstep_pinned s TSend = None.
 Proof. exact refuted_send_after_finish. Qed.
